@@ -160,6 +160,57 @@ def diff_bound(c, b, ws, scales, rhs_gap=0.0):
     return amp * tot + read, A, Ks
 
 
+def history_block(ctx):
+    """one estimator used repeatedly (re-fit with new values, re-fit after its noise level / jitter attribute was changed) and
+    several estimators in one process must predict exactly what the equivalent freshly constructed estimator predicts in a clean
+    interpreter (harness/freshproc.py: both sides run in fresh processes, compared bit for bit)"""
+    from concurrent.futures import ThreadPoolExecutor
+    from harness import freshproc
+    hr = np.random.default_rng(ctx.seed + 16)
+    D = dict(seed=int(hr.integers(1 << 30)), n=14, d=2)
+    D2 = dict(seed=int(hr.integers(1 << 30)), n=17, d=2, scale=3.0)
+    Y1 = dict(seed=int(hr.integers(1 << 30)), n=14, cols=2)
+    Y2 = dict(seed=int(hr.integers(1 << 30)), n=14, cols=2)
+    Y3 = dict(seed=int(hr.integers(1 << 30)), n=17, cols=0)
+    q = hr.normal(size=(4, 2)).tolist()
+
+    def new(**kw_):
+        return {"op": "new", "cls": "FunctionEstimator", "kwargs": dict(kw_, jit=False)}
+
+    def fit(x, y):
+        return {"op": "fit", "x": x, "y": y}
+    hist = [
+        ("re-fit with new values, then with a larger sigma",
+         [new(sigma=0.05), fit(D, Y1), fit(None, Y2), {"op": "set", "attr": "sigma", "value": 0.5}, fit(None, Y2)],
+         [new(sigma=0.5), fit(D, Y2)]),
+        ("re-fit after the jitter was changed",
+         [new(sigma=0.0, jitter=1e-6), fit(D, Y1), {"op": "set", "attr": "jitter", "value": 1e-3}, fit(None, Y1)],
+         [new(sigma=0.0, jitter=1e-3), fit(D, Y1)]),
+        ("a second estimator with another noise level on other data",
+         [new(sigma=0.05), fit(D, Y1), new(sigma=0.5), fit(D2, Y3)],
+         [new(sigma=0.5), fit(D2, Y3)]),
+    ]
+    jobs = [(i, side, {"steps": steps, "query": q}) for i, (_, h, p_) in enumerate(hist) for side, steps in (("hist", h), ("plain", p_))]
+    with ThreadPoolExecutor(max_workers=6) as ex:
+        outs = list(ex.map(lambda j: freshproc.run_spec(j[2], "c16_%d_%s" % (j[0], j[1]), ctx.dir), jobs))
+    for i, (what, h, p_) in enumerate(hist):
+        oh, op_ = outs[2 * i], outs[2 * i + 1]
+        if not op_.get("ok"):
+            ctx.violation("C16|history|plain-fit-fails|%d" % i, "a plain FunctionEstimator fit fails in a fresh interpreter",
+                          {"steps": p_, "error": op_.get("error")})
+            continue
+        diff = freshproc.differing(oh, op_)
+        if diff:
+            ctx.violation("C16|history|%s" % what.split(",")[0].replace(" ", "-"),
+                          "a FunctionEstimator used repeatedly predicts differently from the equivalent fresh estimator",
+                          {"history": what, "steps_with_history": h, "steps_plain": p_, "query": q, "differing": diff,
+                           "outcome_with_history": oh.get("error", "ok"),
+                           "replay": "python /verif/harness/freshproc.py <spec.json> with each of the two step lists; outputs must be identical",
+                           "values_with_history": {k: oh.get("obs", {}).get(k) for k in diff[:3]},
+                           "values_plain": {k: op_["obs"].get(k) for k in diff[:3]}})
+    return len(hist)
+
+
 def run(ctx):
     quiet()
     mc = real_module("mellon.conditional")
@@ -202,6 +253,7 @@ def run(ctx):
     n_eval = 0
     if gen is not None and not any(b.kind in ("proof", "gate") for b in ctx.broken):
         n_eval = C01.correspond(ctx, items, meta)
+    counts["histories"] = history_block(ctx)
     n_flag = uncertainty_flag_block(ctx, rng)
     counts["uncertainty_flag"] = n_flag
     ctx.cov["evaluations"] = n_eval
